@@ -6,6 +6,10 @@
 (*    variation of a on [0,1], rational whenever the roots of a' are.      *)
 (*  - Polylines over Pythagorean directions have integer edge lengths.     *)
 (*  - A circular arc of k quarter turns has length r k pi / 2.             *)
+(*  - For every other segment the length is DEFINED as the integral of     *)
+(*    the speed |P'(t)| over [0,1]; TLC cannot evaluate it, the harness    *)
+(*    evaluates that definition from the specification's exact data by     *)
+(*    Gauss-Legendre quadrature (tagged comparator, see harness/c15.py).   *)
 (*  - Walk: point(t) of a path = the point at the corresponding fraction   *)
 (*    of the segment whose cumulative-length interval contains t.          *)
 (***************************************************************************)
